@@ -157,6 +157,8 @@ impl WakerList {
         match unsafe { queue.try_dequeue_unchecked() } {
             Ok(slot) => {
                 let slot = unsafe { &*slot.as_ptr() };
+                #[cfg(feature = "verif")]
+                crate::verif::emit(crate::verif::Probe::Point(crate::verif::P_DEQUEUED_BEFORE_CLEAR));
                 *slot.wake_lock.lock() = false;
                 ReadySlot::Ready((slot.index, self.get(slot.index)))
             }
@@ -208,12 +210,16 @@ mod slot {
 
         // Increment the reference count of the arc to clone it.
         unsafe fn clone_waker(waker: *const ()) -> RawWaker {
+            #[cfg(feature = "verif")]
+            crate::verif::emit(crate::verif::Probe::WakerFn { kind: 0, slot: waker as usize });
             unsafe { meta_ref(waker.cast()).inc_strong() };
             RawWaker::new(waker, VTABLE)
         }
 
         // We don't need ownership. Just wake_by_ref and drop the waker
         unsafe fn wake(waker: *const ()) {
+            #[cfg(feature = "verif")]
+            crate::verif::emit(crate::verif::Probe::WakerFn { kind: 1, slot: waker as usize });
             unsafe {
                 wake_by_ref(waker);
                 drop_waker(waker);
@@ -223,6 +229,8 @@ mod slot {
         // Find the `WakerHeader` and push the current index value into it,
         // then call the stored waker to trigger a poll
         unsafe fn wake_by_ref(waker: *const ()) {
+            #[cfg(feature = "verif")]
+            crate::verif::emit(crate::verif::Probe::WakerFn { kind: 2, slot: waker as usize });
             let slot = waker.cast::<WakerItem>();
 
             let node = unsafe { &*slot };
@@ -234,12 +242,20 @@ mod slot {
                 let meta = unsafe { meta_ref(slot) };
                 meta.queue
                     .enqueue(unsafe { NonNull::new_unchecked(slot.cast_mut()) });
+                #[cfg(feature = "verif")]
+                crate::verif::emit(crate::verif::Probe::Point(crate::verif::P_ENQUEUED_BEFORE_NOTIFY));
                 meta.waker.notify();
+            }
+            #[cfg(feature = "verif")]
+            if prev {
+                crate::verif::emit(crate::verif::Probe::Point(crate::verif::P_WAKE_COALESCED));
             }
         }
 
         // Decrement the reference count of the Arc on drop
         unsafe fn drop_waker(waker: *const ()) {
+            #[cfg(feature = "verif")]
+            crate::verif::emit(crate::verif::Probe::WakerFn { kind: 3, slot: waker as usize });
             let meta = unsafe { meta_ref(waker.cast()) };
             if meta.dec_strong() {
                 unsafe {
@@ -362,6 +378,9 @@ fn slice_offset() -> usize {
 unsafe fn drop_inner(p: *mut WakerHeader, capacity: usize) {
     let layout = WakerList::layout(capacity);
 
+    #[cfg(feature = "verif")]
+    crate::verif::emit(crate::verif::Probe::BlockRelease { base: p as usize });
+
     // SAFETY: the pointer points to an aligned and init instance of `WakerHeader`
     unsafe { drop_in_place(p) };
 
@@ -393,6 +412,13 @@ impl WakerList {
         if ptr.is_null() {
             handle_alloc_error(arc_slice_layout)
         }
+
+        #[cfg(feature = "verif")]
+        crate::verif::emit(crate::verif::Probe::BlockAlloc {
+            base: ptr as usize,
+            size: arc_slice_layout.size(),
+            cap,
+        });
 
         // meta should be the first item in the alloc
         let meta = ptr.cast::<WakerHeader>();
